@@ -179,6 +179,16 @@ func addUniq(l []string, s string) []string {
 	return append(l, s)
 }
 
+func (k *Known) forgetIndex(t, ix string) {
+	out := k.idx[t][:0]
+	for _, x := range k.idx[t] {
+		if x != ix {
+			out = append(out, x)
+		}
+	}
+	k.idx[t] = out
+}
+
 // Learn records what an operation mentions.
 func (k *Known) Learn(e *Event) {
 	note := func(t string) {
@@ -345,6 +355,12 @@ func (r *Runner) Step(e *Event, observe bool) ([]byte, error) {
 	r.known.Learn(e)
 	r1 := Exec(r.P1, e)
 	r2 := Exec(r.P2, e)
+	if e.Op == "DeleteIndex" && r1.Err == "none" && r2.Err == "none" {
+		r.known.forgetIndex(e.T, e.IndexName())
+	}
+	if e.Op == "DeleteTable" && r1.Err == "none" && r2.Err == "none" {
+		delete(r.known.idx, e.T)
+	}
 	if e.Op == "Fail" {
 		m := e.Mode
 		if m == "deactivate" {
